@@ -151,3 +151,37 @@ Theorem C14_never_other_document_honest :
   (forall text, r = Ok text -> result_spec sha1 unzip lossy (w_segs (snd s)) es text).
 Proof. intros sha1 unzip x s t es r xs'. exact (genapi_sound sha1 unzip good_honest x s t es r xs' honest_reads_honest). Qed.
 Print Assumptions C14_never_other_document_honest.
+
+(* ---- TIE TO THE SOURCE CODE: the register decoders genapi relies on, translated -----------------------------------
+   gen/DecodersSrc.v is regenerated on every run by tools/translate_decoders.py from cameleon/src/u3v/register_map.rs
+   (typed mini-Rust parser tools/minirust.py, debug-build semantics of lib/RustInt.v).  src_genicam_file_version,
+   src_file_type, src_compression_type are the bodies of ManifestEntry::genicam_file_version and
+   GenICamFileInfo::{file_type, compression_type} as functions of the register word; DeviceXml / Uncompressed are 0,
+   BufferXml / Zip are 1.  Statements hold for every word.  proofs/P_C14s.v. *)
+From Cam Require Import DecodersSrc P_C14s.
+
+(* the version the loop compares is the translated decoding of the entry's first register (offset 0, 4 bytes) *)
+Theorem C14_file_version_from_source :
+  src_genicam_file_version_reg = (0, 4) /\ forall v, src_genicam_file_version v = Ok (version_of v).
+Proof. exact file_version_from_source. Qed.
+Print Assumptions C14_file_version_from_source.
+
+(* [file_type] / [compression_type] are the raw fields the translated code matches on ([type_of_raw]: 0, 1, otherwise
+   InvalidDevice); the tests the model branches on are exactly the outcomes of the translated code *)
+Theorem C14_file_info_from_source : forall info,
+  src_file_type info = type_of_raw (file_type info) /\
+  src_compression_type info = type_of_raw (compression_type info) /\
+  ((file_type info =? 0) = true <-> src_file_type info = Ok 0) /\
+  ((file_type info =? 1) = true <-> src_file_type info = Ok 1) /\
+  (negb ((compression_type info =? 0) || (compression_type info =? 1)) = true <->
+     src_compression_type info = Err U3VTables.CE_INVALID_DEVICE).
+Proof. exact file_info_from_source. Qed.
+Print Assumptions C14_file_info_from_source.
+
+Theorem C14_source_examples :
+  src_genicam_file_version 16909060 = Ok (1, 2, 772) /\ version_of 16909060 = (1, 2, 772) /\
+  src_file_type 9 = Ok 1 /\ file_type 9 = 1 /\ src_file_type 2 = Err U3VTables.CE_INVALID_DEVICE /\
+  src_compression_type 1024 = Ok 1 /\ compression_type 1024 = 1 /\
+  src_compression_type 2048 = Err U3VTables.CE_INVALID_DEVICE.
+Proof. exact file_examples. Qed.
+Print Assumptions C14_source_examples.
